@@ -160,6 +160,7 @@ fn parent(entry: &Entry, tier: Tier, seed: u64) -> i32 {
     );
     let mut results: Vec<(usize, WorkerResult)> = Vec::new();
     let mut inconclusive: Vec<String> = Vec::new();
+    let mut crashed: Vec<(usize, i32)> = Vec::new();
     for (w, mut child, out) in children {
         let status = loop {
             match child.try_wait() {
@@ -183,8 +184,65 @@ fn parent(entry: &Entry, tier: Tier, seed: u64) -> i32 {
                 Some(r) => results.push((w, r)),
                 None => inconclusive.push(format!("worker {w}: no result file")),
             },
-            Some(st) => inconclusive.push(format!("worker {w}: abnormal exit {st:?}")),
+            Some(st) => {
+                use std::os::unix::process::ExitStatusExt;
+                match st.signal() {
+                    // the code under test took the worker down (abort, allocation failure, stack overflow):
+                    // repeat this worker's share with every case in its own process to find the case
+                    Some(sig) if sig != libc::SIGKILL && sig != libc::SIGTERM => crashed.push((w, sig)),
+                    _ => inconclusive.push(format!("worker {w}: abnormal exit {st:?}")),
+                }
+            }
             None => inconclusive.push(format!("worker {w}: exceeded the wall limit, killed")),
+        }
+        let _ = std::fs::remove_file(&out);
+    }
+
+    // workers that died from a signal: isolation re-run (one at a time; the first one that pins a case is enough)
+    for (w, sig) in crashed {
+        if results.iter().any(|(_, r)| r.violation.is_some()) {
+            break;
+        }
+        let out = tmp.join(format!("{}-{}-{}-iso.json", entry.id, std::process::id(), w));
+        let _ = std::fs::remove_file(&out);
+        let cases = per + if (w as u32) < rem { 1 } else { 0 };
+        let st = Command::new(&exe)
+            .arg(entry.id)
+            .arg("--tier")
+            .arg(tier.name())
+            .arg("--worker")
+            .arg(w.to_string())
+            .arg("--nworkers")
+            .arg(nworkers.to_string())
+            .arg("--cases")
+            .arg(cases.to_string())
+            .arg("--out")
+            .arg(&out)
+            .env("VERIF_SEED", (seed as i64).to_string())
+            .env("VERIF_ISOLATE", "1")
+            .env("RUST_BACKTRACE", "0")
+            .stdin(Stdio::null())
+            .stdout(Stdio::null())
+            .stderr(Stdio::null())
+            .spawn()
+            .and_then(|mut child| loop {
+                match child.try_wait()? {
+                    Some(st) => break Ok(st),
+                    None if start.elapsed() > limit + Duration::from_secs(240) => {
+                        let _ = child.kill();
+                        break child.wait();
+                    }
+                    None => std::thread::sleep(Duration::from_millis(50)),
+                }
+            });
+        match (st, std::fs::read_to_string(&out).ok().and_then(|s| serde_json::from_str::<WorkerResult>(&s).ok())) {
+            (Ok(st), Some(r)) if st.success() => {
+                if r.violation.is_none() {
+                    inconclusive.push(format!("worker {w}: died from signal {sig}, but every case passed when run in its own process"));
+                }
+                results.push((w, r));
+            }
+            (st, _) => inconclusive.push(format!("worker {w}: died from signal {sig}; isolation re-run failed ({st:?})")),
         }
         let _ = std::fs::remove_file(&out);
     }
